@@ -123,6 +123,13 @@ func (f *Frame) Build() ([]byte, error) {
 		if err != nil {
 			return nil, err
 		}
+		if f.Kind == "bare" {
+			// a bare decoder input: Hex is the undamaged input, the damage operators still apply
+			// (for every other kind Hex holds the final bytes of a materialised replay file)
+			for _, op := range f.Faults {
+				b = applyFault(b, op)
+			}
+		}
 		f.bytes = b
 		return b, nil
 	}
